@@ -214,9 +214,15 @@ HARNESSES = [
        bounds={'threads': 2, 'free_rounds': 2, 'forced_rounds': 2, 'spin_unroll': 2, 'memory_model': 'SC', 'threshold': '1-2', 'cut': 'prioritize_task, spawn_in_graph_arena, '
                'reservable_predecessor_cache::try_reserve_impl, forwarder task constructor (all proved unreachable in these scenarios: no predecessor)'}),
   dict(name='limiter_pull_threads', unit='lim_pull2', harness='h_lim_pull.c', cbmc=['--unwind', '12', '--object-bits', '12'], native_cflags=['-fno-sanitize=null'],
-       defines={'memset': 'vp_memset', 'ROUNDS': 2}, tiers=['thorough'], timeout=3000,
+       defines={'memset': 'vp_memset', 'ROUNDS': 1}, tiers=['thorough'], timeout=3400, mem_gb=16,
        scenarios=[{'WOP': 0, 'REGP': 1}, {'WOP': 1, 'REGP': 0}, {'WOP': 2, 'REGP': 1}],
-       desc='limiter pull threads', bounds={}),
+       desc='limiter_node<int,int> in pull mode, 2 threads: F = the real forward_task() of a forwarder in flight (reserves from a one-item harness predecessor, is refused by the successor, '
+            'releases, re-checks), W = the refusing successor re-registering (real register_successor) and/or a decrement (real decrement_counter -> forward_task inline). No stuck message: '
+            'at quiescence NOT (count+tries < threshold AND predecessor holds an unreserved message AND successor registered AND no forwarder task pending); my_tries == 0, my_count exact, '
+            'forwarded - decrements <= threshold, reservation protocol, nobody blocked for ever',
+       bounds={'threads': 2, 'free_rounds': 1, 'forced_rounds': 2, 'memory_model': 'SC', 'threshold': 2, 'predecessor': 'one message', 'successor': 'refuses the first pulled offer, accepts later',
+               'cut': 'spin_mutex / spin_rw_mutex lock operations -> abstract locks (parking callers; the locks are C08), forwarder-task constructor (= a task exists), spawn_in_graph_arena, '
+                      'std::deque slow paths (asserted unreachable); created forwarder tasks are counted, not executed'}),
   dict(name='buffer_node', unit='bufnode', harness='h_bufnode.c', cbmc=['--unwind', '40'] + FS, defines={'KIND': 0},
        scenarios_quick=bufnode_pick(BUF_QUICK, 1, ['0', '1', '2']) + bufnode_pick(BUF_QUICK[:4], 2, ['2', '5']),
        scenarios_thorough=bufnode_scenarios(4, [1, 2], ['0', '1', '2', '5'], 2) + [dict(sc, LEN=5, FROM=6 * sc['FROM']) for sc in bufnode_scenarios(4, [1], ['0', '1', '2', '7'], 1)],
